@@ -202,7 +202,11 @@ def run(F, rep):
             # one arm returns Ok without calls or writes
             for v, tb in t["targets"] + [[None, t["otherwise"]]]:
                 r = g.reachable_from(tb)
-                pure = all(loader.blocks[x]["term"]["k"] in ("goto", "return", "switch", "drop") for x in r) and \
+                def harmless(tt):
+                    # logging or a value-only helper: no mutable borrow goes in, and it is not code of the reader itself
+                    return tt["k"] == "call" and not tt.get("indirect") and not tt["callee"].startswith(("ragc_common::", "ragc_core::")) and \
+                        not any(a["k"] in ("copy", "move") and loader.locals[a["pl"]["l"]]["ty"].startswith("&mut") for a in tt["args"])
+                pure = all(loader.blocks[x]["term"]["k"] in ("goto", "return", "switch", "drop") or harmless(loader.blocks[x]["term"]) for x in r) and \
                     not any(field_path(s["pl"]) for x in r for s in loader.blocks[x]["stmts"] if s["k"] == "assign")
                 if pure and any(loader.blocks[x]["term"]["k"] == "return" for x in r):
                     callee_guard = (bi, fld[0][2], e)
